@@ -41,9 +41,14 @@ impl Profile for CustomChain {
         sg.reply_pm = *rng.pick(&[0, 500, 900]);
         sg.fail_pm = *rng.pick(&[0, 100]);
         sg.funds_pm = *rng.pick(&[0, 200]);
+        sg.gas_limits = rng.chance(1, 2);
         sg.typed_pct = *rng.pick(&[0, 50, 100]);
         sg.max_depth = rng.range(0, 2 + crate::extra_depth()) as u32;
         let mut tg = TrafficGen { sg, codes: &wp.codes, cross_migrate: false, model: vec![] };
+        if rng.chance(1, crate::LONG_RUN_ONE_IN) {
+            let n = rng.range(258, 330);
+            return tg.hammer(rng, n);
+        }
         let n = rng.range(3, 12 * crate::scale());
         (0..n).filter_map(|_| tg.op(rng)).collect()
     }
